@@ -1102,16 +1102,29 @@ class ExecComp(ExplicitComponent):
                 # solve with complex input value
                 self._exec()
 
+                dense_outs = []
                 for u in out_names:
                     if (u, inp) in partials:
                         subval, subval_is_scalar = vdict[u]
-                        if subval_is_scalar:
+                        if psize > 1 and subval.size == 1:
+                            # (1 x psize) partial is declared dense, not diagonal: the entries
+                            # of the row must be perturbed one at a time (done below)
+                            dense_outs.append(u)
+                        elif subval_is_scalar:
                             partials[u, inp] = imag(subval * inv_stepsize)
                         else:
                             partials[u, inp] = imag(subval * inv_stepsize).ravel()
 
                 # restore old input value
                 ival -= step
+
+                if dense_outs:
+                    for i, idx in enumerate(array_idx_iter(ival.shape)):
+                        ival[idx] += step
+                        self._exec()
+                        for u in dense_outs:
+                            partials[u, inp][:, i] = imag(vdict[u][0] * inv_stepsize).flat
+                        ival[idx] -= step
             else:
                 for i, idx in enumerate(array_idx_iter(ival.shape)):
                     # set a complex input value
@@ -1208,7 +1221,7 @@ class _IODict(object):
 
     def __setitem__(self, name, value):
         oval = self._outputs[name]
-        if oval.shape == ():
+        if np.shape(oval) == ():
             self._outputs[name] = np.squeeze(value)
         else:
             try:
